@@ -274,7 +274,7 @@ func (exec *Executor) execMethodBigInt(
 	case int64:
 		bigInt = val
 	case float64:
-		if val > math.MaxInt64 || val < math.MinInt64 || math.IsInf(val, 0) || math.IsNaN(val) {
+		if val >= math.MaxInt64 || val < math.MinInt64 || math.IsInf(val, 0) || math.IsNaN(val) {
 			return exec.returnVerboseError(fmt.Errorf(
 				`%w: argument "%v" of jsonpath item method %v is invalid for type %v`,
 				ErrVerbose, val, node.Name(), "bigint",
@@ -287,7 +287,7 @@ func (exec *Executor) execMethodBigInt(
 		if err != nil {
 			var f float64
 			f, err = val.Float64()
-			if err != nil || f > math.MaxInt64 || f < math.MinInt64 || math.IsInf(f, 0) || math.IsNaN(f) {
+			if err != nil || f >= math.MaxInt64 || f < math.MinInt64 || math.IsInf(f, 0) || math.IsNaN(f) {
 				return exec.returnVerboseError(fmt.Errorf(
 					`%w: argument "%v" of jsonpath item method %v is invalid for type %v`,
 					ErrVerbose, val, node.Name(), "bigint",
